@@ -275,8 +275,7 @@ def ref_addmm(xs, a):
     except ValueError:
         raise Reject("batch dims")
     try:
-        if np.broadcast_shapes(x.shape, mm.shape) != mm.shape:
-            raise Reject("bias not broadcastable to result")
+        np.broadcast_shapes(x.shape, mm.shape)          # the documented expression is x1 + x2 @ x3 (NumPy semantics: x1 may broadcast the product up as well)
     except ValueError:
         raise Reject("not broadcastable")
     return x + mm
@@ -409,7 +408,7 @@ _reg(Op("matmul", {
     "operator_ndarray_right": lambda L, t, a: t[0] @ t[1].data,
 }, ref_matmul, narg=2, documented=lambda a, s: len(s[0]) >= 2 and len(s[1]) >= 2))
 _reg(Op("addmm", {"func": lambda L, t, a: L.sg.addmm(t[0], t[1], t[2])}, ref_addmm, narg=3,
-        documented=lambda a, s: len(s[1]) == 2 and len(s[2]) == 2, argclass=lambda a, s: "batched" if a.get("batched") else "2d"))
+        documented=lambda a, s: len(s[1]) == 2 and len(s[2]) == 2, argclass=lambda a, s: "batched" if a.get("batched") else ("larger-x1" if a.get("larger_x1") else "2d")))
 _reg(Op("pow", {
     "func": lambda L, t, a: L.sg.pow(t[0], a["n"]),
     "operator": lambda L, t, a: t[0] ** a["n"],
@@ -575,6 +574,9 @@ def grid(opname, tier, rng):
         for m, k, n in ([(2, 3, 2), (1, 2, 3), (3, 1, 1)] if not thorough else [(2, 3, 2), (1, 2, 3), (3, 1, 1), (2, 2, 2), (1, 1, 1)]):
             for sa in gen.broadcast_patterns([m, n]):
                 out.append(([sa, [m, k], [k, n]], {}))
+        # the documented expression is x1 + x2 @ x3: an x1 that broadcasts the product *up* (an extra batch axis, an extent where the product has 1)
+        for sa, sb, sc in (([2, 3, 4], [3, 2], [2, 4]), ([3, 4], [1, 2], [2, 4]), ([2, 1, 4], [3, 2], [2, 4]), ([5, 2, 2], [1, 2, 3], [3, 2]), ([3, 4], [3, 2], [2, 1])):
+            out.append(([sa, sb, sc], {"larger_x1": True}))
     elif opname == "pow":
         ns = [-3, -2, -1, 0, 1, 2, 3, 4, 0.5, 1.5, -0.5, 2.5, 2.0]
         for s in (base if thorough else base[:7]):
